@@ -71,6 +71,15 @@ def collectHaps (thr : Rat) (posts : List (List HapStat)) : List (Hap × Rat) :=
 
 def isRef (h : Hap) : Bool := h.all (· == 0)
 
+/-- stable insertion sort (structural recursion; what numpy's sort does below 17 elements) -/
+def insertLe {α} (le : α → α → Bool) (x : α) : List α → List α
+  | [] => [x]
+  | y :: ys => if le x y then x :: y :: ys else y :: insertLe le x ys
+
+def sortLe {α} (le : α → α → Bool) : List α → List α
+  | [] => []
+  | x :: xs => insertLe le x (sortLe le xs)
+
 /-- `call_posterior_haplotypes`: (haplotypes with the reference first, `ref_observed`).
     ALT order: `np.flip(np.argsort(values))`, i.e. descending summed weight; equal weights come out in
     reverse insertion order when argsort is stable (numpy's sort of < 17 elements is an insertion sort);
@@ -78,7 +87,7 @@ def isRef (h : Hap) : Bool := h.all (· == 0)
 def callPosteriorHaplotypes (thr : Rat) (posts : List (List HapStat)) (nBase : Nat) : List Hap × Bool :=
   let all := collectHaps thr posts
   let alts := all.filter (fun p => !isRef p.1)
-  let sorted := (alts.mergeSort (fun a b => decide (a.2 ≤ b.2))).reverse
+  let sorted := (sortLe (fun a b => decide (a.2 ≤ b.2)) alts).reverse
   (List.replicate nBase 0 :: sorted.map (·.1), all.any (fun p => isRef p.1))
 
 /-- `haplotype_labels` after `if not ref_called: haplotype_labels.pop(haplotypes[0])` -/
@@ -91,7 +100,7 @@ def label (C : List Hap × Bool) (h : Hap) : Option Nat :=
 /-- `_genotype_as_alleles`: labels sorted, unknown (`-1`, printed `.`) last -/
 def genotypeAsAlleles (C : List Hap × Bool) (genotype : List Hap) : List (Option Nat) :=
   let labs := genotype.map (label C)
-  let known := (labs.filterMap id).mergeSort (fun a b => decide (a ≤ b))
+  let known := sortLe (fun a b => decide (a ≤ b)) (labs.filterMap id)
   known.map some ++ List.replicate (labs.length - known.length) none
 
 /-- the called haplotype *sequence* behind an allele number of a sample (what C10 compares for assemble) -/
